@@ -252,6 +252,9 @@ func (s Server) LeafSelectionQuery(ctx context.Context, req *admin.LeafSelection
 			newChanges[path] = updateValue
 		}
 
+		if config.Values == nil {
+			config.Values = make(map[string]*configapi.PathValue)
+		}
 		for _, path := range deletes {
 			if _, ok := config.Values[path]; ok {
 				config.Values[path].Deleted = true
